@@ -229,9 +229,23 @@ func (e *Engine) callEffects(fc *FnCtx, c *ast.CallExpr) callEff {
 				return callEff{}
 			}
 			heap := ct.ModAll
+			mpn, mpt, _ := sigParams(fn)
 			for _, m := range ct.Modifies {
-				_ = m
-				heap = true // conservatively: any modifies may include a region
+				// `modifies p` with p a pointer to a library (opaque) struct touches no byte region of our heap
+				if id, ok := m.(SId); ok {
+					opaque := false
+					for i, n := range mpn {
+						if n == id.Name {
+							if pt, ok := mpt[i].Underlying().(*types.Pointer); ok && isOpaqueStruct(pt.Elem()) {
+								opaque = true
+							}
+						}
+					}
+					if opaque {
+						continue
+					}
+				}
+				heap = true // conservatively: any other modifies may include a region
 			}
 			if len(ct.Modifies) == 0 && !ct.ModAll {
 				// default: pointer params modified, slices reachable from them too
